@@ -316,6 +316,7 @@ class Check:
         srcs = sorted(glob.glob(os.path.join(REPO, 'src', '*.rs'))) + [os.path.join(VERIF, 'harness', 'src', 'lib.rs')]
         mir.load_structs(srcs)
         mir._nl.clear()
+        mir.CLOSURES.clear()
         if s.prop == 'C17':
             # seeded random straight-line programs, regenerated on every run (VERIF_SEED)
             n = s.table.get('*', {}).get('programs', {}).get(s.tier, 20)
@@ -552,8 +553,13 @@ class Check:
         return False, 'assertion not reached natively'
 
     def robust_models(s, ob, o, order, first_model):
-        """Try to obtain replay-friendly models: small dyadic inputs, clear residual."""
+        """Replay-friendly models first (inputs bounded by 4, then 64, residual > 2^-8: well-conditioned, so the native
+        floating-point run means what the exact model means); the solver's raw model last."""
+        for m in s.bounded_models(ob, o, order):
+            yield m
         yield first_model
+
+    def bounded_models(s, ob, o, order):
         names = [nm for nm, lt in order if lt in mir.FLOATS]
         pc = list(ob['pc'])
         if ob['kind'] == 'eq':
@@ -819,6 +825,14 @@ class Check:
                             continue
                         T.reset()
                         s.feas_cache = {}
+                        # the executor's verdicts on this lowering are only trusted where it validates against the native
+                        # build on this lowering too (concrete differential runs); otherwise the harness is skipped
+                        try:
+                            s.validate(h, 3)
+                        except Exception as e:
+                            s.stats['second_lowering_unsupported'] = s.stats.get('second_lowering_unsupported', 0) + 1
+                            log('  %s: second lowering skipped (executor does not validate on the opt-level-1 MIR: %s)' % (h, str(e)[:100]))
+                            continue
                         s.check_harness(h, pool)
                     s.phase2 = False
                     s.stats['second_lowering_harnesses'] = len(sub)
